@@ -1,14 +1,212 @@
 //! C09 — scenario-based check, see props/builder.rs and DESIGN.md §5.
+use crate::cbor;
+use crate::gen::{self, Gen};
+use crate::ledger::language_views;
 use crate::runner::*;
+use crate::tape::*;
+use cardano_serialization_lib as csl;
+use csl::*;
+use std::collections::{BTreeMap, BTreeSet};
 
 pub fn property() -> Property {
     Property {
         id: "C09",
         rule: "builder scenarios with emphasis on Plutus spends / mints / certificates / withdrawals / votes / proposals, datums by value / reference / inline, extra datums, cost models for V1-V3 in varying insertion order; calc_script_data_hash is issued after the last script operation. Oracle: body key 11 equals blake2b256(redeemer bytes | datum bytes | language views of the languages in use) recomputed from the emitted witness set, body key 7 equals blake2b256 of the attached auxiliary-data bytes. Non-trivial = >= 2 redeemers, or >= 1 datum with >= 1 redeemer, or the no-redeemer form; distinct by built bytes",
-        assumptions: vec!["scenarios: tape-decoded protocol parameters, keyring of 6 keys + 2 Byron roots, pools of 5 native and 5 Plutus scripts and 4 datums (overlaps between sources are common), a UTxO universe the scenario owns, and a sequence of builder operations (inputs by every public route, outputs, certificates of 17 shapes with key / native / Plutus credentials, withdrawals, mint and burn, votes, proposals, required signers, reference inputs, extra datums, auxiliary data, ttl, donation, collateral and its helper routes, fee requests, calc_script_data_hash, one of 7 balancing routes incl. the 4 coin-selection strategies), then build_tx / build / build_tx_unsafe".into(), "operations the library rejects with Err are recorded and skipped: the properties are conditional on success".into(), "UTxO values, owners and reference scripts come from the scenario's own map; sums, sizes, deposits, fees and hashes are recomputed from the emitted bytes by the engine (cbor.rs, ledger.rs), never asked from the library".into(), "a UTxO that carries a reference script is only spent through the add_regular_utxo route (the other input adders have no parameter to declare its script size)".into(), "language views are re-implemented in ledger.rs (V1: key 41 00, value = byte string wrapping an indefinite list; V2/V3: uint key, definite list; canonical key order)".into()],
-        subchecks: vec![SubCheck { name: "scenario", kind: Kind::Tape { quick: 400000, thorough: 10000000, max_len: 500 }, run: super::builder::c09_case }],
+        assumptions: vec!["scenarios: tape-decoded protocol parameters, keyring of 6 keys + 2 Byron roots, pools of 5 native and 5 Plutus scripts and 4 datums (overlaps between sources are common), a UTxO universe the scenario owns, and a sequence of builder operations (inputs by every public route, outputs, certificates of 17 shapes with key / native / Plutus credentials, withdrawals, mint and burn, votes, proposals, required signers, reference inputs, extra datums, auxiliary data, ttl, donation, collateral and its helper routes, fee requests, calc_script_data_hash, one of 7 balancing routes incl. the 4 coin-selection strategies), then build_tx / build / build_tx_unsafe".into(), "operations the library rejects with Err are recorded and skipped: the properties are conditional on success".into(), "UTxO values, owners and reference scripts come from the scenario's own map; sums, sizes, deposits, fees and hashes are recomputed from the emitted bytes by the engine (cbor.rs, ledger.rs), never asked from the library".into(), "a UTxO that carries a reference script is only spent through the add_regular_utxo route (the other input adders have no parameter to declare its script size)".into(), "stand-alone helpers (sub-check helpers): hash_script_data for 0-3 generated redeemers, no datums or 1-3 datums, and cost models for any subset of V1-V3 (0-166 values each, negative and 64-bit values included) is compared with blake2b256(redeemer bytes | datum bytes | language views) where the redeemer and datum bytes are cut out of a witness set holding the same values (engine's CBOR reader), the language views come from ledger.rs, and the documented no-redeemer form A0 | datums | A0 applies when there are no redeemers; hash_auxiliary_data / hash_plutus_data are compared with blake2b256 of the bytes cut out of a serialized transaction / witness set. An empty datum list is outside the generated domain (the witness set omits it)".into(), "language views are re-implemented in ledger.rs (V1: key 41 00, value = byte string wrapping an indefinite list; V2/V3: uint key, definite list; canonical key order)".into()],
+        subchecks: vec![SubCheck { name: "scenario", kind: Kind::Tape { quick: 400000, thorough: 10000000, max_len: 500 }, run: super::builder::c09_case }, SubCheck { name: "helpers", kind: Kind::Tape { quick: 400_000, thorough: 12_000_000, max_len: 300 }, run: helpers }],
         crash_prone: false,
         max_reject_fraction: 0.1,
         required_label_fraction: vec![],
     }
+}
+
+fn blake(b: &[u8]) -> Vec<u8> {
+    let mut out = [0u8; 32];
+    cryptoxide::blake2b::Blake2b::blake2b(&mut out, b, &[]);
+    out.to_vec()
+}
+
+fn bn(v: u64) -> BigNum {
+    BigNum::from(v)
+}
+
+/// the stand-alone hashing helpers against the definitions, for arbitrary redeemers, datums and cost models
+fn helpers(ctx: &mut Ctx, tape: &[u8]) -> CaseResult {
+    let (plan, content) = split_plan(tape, 12);
+    let mut t = Tape::new(plan);
+    let mut g = Gen::new(content, 3, 4);
+    let n_red = t.choose(4);
+    let n_dat = t.choose(4); // 0 = none
+    let lang_mask = t.choose(8) as u8;
+    let sizes = [t.choose(6), t.choose(6), t.choose(6)];
+    let value_mode = t.choose(4);
+    let insertion = t.choose(3);
+    // redeemers
+    let mut reds = Redeemers::new();
+    for i in 0..n_red {
+        let tag = match g.t.choose(6) {
+            0 => RedeemerTag::new_spend(),
+            1 => RedeemerTag::new_mint(),
+            2 => RedeemerTag::new_cert(),
+            3 => RedeemerTag::new_reward(),
+            4 => RedeemerTag::new_vote(),
+            _ => RedeemerTag::new_voting_proposal(),
+        };
+        let data = gen::plutus_data(&mut g);
+        let ex = ExUnits::new(&bn(g.t.u64_class()), &bn(g.t.u64_class()));
+        reds.add(&Redeemer::new(&tag, &bn(i as u64 * 3 + g.t.choose(3) as u64), &data, &ex));
+    }
+    // datums
+    let datums: Option<PlutusList> = if n_dat == 0 {
+        None
+    } else {
+        let mut l = PlutusList::new();
+        for _ in 0..n_dat {
+            l.add(&gen::plutus_data(&mut g));
+        }
+        Some(l)
+    };
+    // cost models
+    let mut cm = Costmdls::new();
+    let mut values: BTreeMap<u8, Vec<i128>> = BTreeMap::new();
+    let order: [u8; 3] = [[0, 1, 2], [2, 1, 0], [1, 2, 0]][insertion];
+    for l in order {
+        if lang_mask & (1 << l) == 0 {
+            continue;
+        }
+        let n = [0usize, 1, 3, 24, 166, 40][sizes[l as usize]];
+        let vals: Vec<i128> = (0..n)
+            .map(|i| match value_mode {
+                0 => i as i128,
+                1 => (i as i128 + 1) * if i % 2 == 0 { -1 } else { 1 },
+                2 => [0i128, 23, 24, 255, 256, 65535, 65536, 4294967295, 4294967296, i64::MAX as i128, -1, -24, -25, -256, -257, i64::MIN as i128][i % 16],
+                _ => g.t.i128_class().clamp(-(1i128 << 64), (1i128 << 64) - 1),
+            })
+            .collect();
+        let mut m = CostModel::new();
+        let mut ok = true;
+        for (i, v) in vals.iter().enumerate() {
+            let iv = match Int::from_str(&v.to_string()) {
+                Ok(x) => x,
+                Err(_) => {
+                    ok = false;
+                    break;
+                }
+            };
+            if m.set(i, &iv).is_err() {
+                ok = false;
+                break;
+            }
+        }
+        if !ok {
+            ctx.reject();
+            return Ok(());
+        }
+        let lang = match l {
+            0 => Language::new_plutus_v1(),
+            1 => Language::new_plutus_v2(),
+            _ => Language::new_plutus_v3(),
+        };
+        cm.insert(&lang, &m);
+        values.insert(l, vals);
+    }
+    let langs: BTreeSet<u8> = values.keys().copied().collect();
+    // the bytes "as present in the witness set"
+    let mut ws = TransactionWitnessSet::new();
+    if n_red > 0 {
+        ws.set_redeemers(&reds);
+    }
+    if let Some(d) = &datums {
+        ws.set_plutus_data(d);
+    }
+    let wbytes = ws.to_bytes();
+    let wdoc = cbor::parse_document(&wbytes).map_err(|e| Failure::new("helpers/witness-set-unreadable", format!("{} {}", e, hex::encode(&wbytes))))?;
+    let red_slice: Option<Vec<u8>> = wdoc.map_get(5).map(|n| n.slice(&wbytes).to_vec());
+    let dat_slice: Option<Vec<u8>> = wdoc.map_get(4).map(|n| n.slice(&wbytes).to_vec());
+    if (n_red > 0) != red_slice.is_some() || datums.is_some() != dat_slice.is_some() {
+        // the witness set did not emit what it was given: not this sub-check's statement
+        ctx.label("helpers:witness-set-omitted-a-field");
+        ctx.reject();
+        return Ok(());
+    }
+    let mut pre: Vec<u8> = Vec::new();
+    if n_red == 0 && datums.is_some() {
+        pre.push(0xa0);
+        pre.extend(dat_slice.clone().unwrap());
+        pre.push(0xa0);
+    } else {
+        match &red_slice {
+            Some(r) => pre.extend(r.iter()),
+            // no redeemers, no datums: the helper still answers; the definition's redeemer field is the empty map
+            None => pre.push(0xa0),
+        }
+        if let Some(d) = &dat_slice {
+            pre.extend(d.iter());
+        }
+        pre.extend(language_views(&langs, &values));
+    }
+    let want = blake(&pre);
+    let got = match catch(|| hash_script_data(&reds, &cm, datums.clone()).to_bytes()) {
+        Ok(h) => h,
+        Err(p) => fail!(format!("helpers/hash_script_data-panic/{}", p.cause()), "{} at {}:{}", p.msg, p.file, p.line),
+    };
+    let describe = || format!("{} redeemers ({}), {} datums ({}), cost models {:?} (sizes {:?}, value mode {}, insertion {:?})", n_red, red_slice.as_ref().map(hex::encode).unwrap_or_default().chars().take(80).collect::<String>(), n_dat, dat_slice.as_ref().map(hex::encode).unwrap_or_default().chars().take(80).collect::<String>(), langs, values.iter().map(|(k, v)| (*k, v.len())).collect::<Vec<_>>(), value_mode, order);
+    if n_red == 0 && datums.is_none() {
+        // nothing to hash in the ledger's sense: only record what the helper does
+        ctx.label("helpers:no-redeemers-no-datums(not judged)");
+    } else {
+        ensure!(
+            got == want,
+            if n_red == 0 { "helpers/hash_script_data-mismatch/no-redeemer-form".to_string() } else { format!("helpers/hash_script_data-mismatch/{}", if langs.contains(&0) { "with-v1" } else { "without-v1" }) },
+            "hash_script_data = {} but the definition gives {} = blake2b256({}); {}",
+            hex::encode(&got),
+            hex::encode(&want),
+            hex::encode(&pre).chars().take(300).collect::<String>(),
+            describe()
+        );
+    }
+    // hash_plutus_data / hash_auxiliary_data over the bytes as serialized inside a transaction
+    if let (Some(d), Some(ds)) = (&datums, &dat_slice) {
+        let first = d.get(0);
+        let h = hash_plutus_data(&first).to_bytes();
+        let set = cbor::parse_document(ds).ok();
+        let item = set.as_ref().and_then(|n| match n.as_tag() {
+            Some((258, inner)) => inner.as_array().and_then(|a| a.first().cloned()),
+            _ => n.as_array().and_then(|a| a.first().cloned()),
+        });
+        if let Some(it) = item {
+            let w = blake(it.slice(ds));
+            ensure!(h == w, "helpers/hash_plutus_data-mismatch", "hash_plutus_data = {} but blake2b256 of the datum as serialized in the witness set ({}) = {}", hex::encode(&h), hex::encode(it.slice(ds)), hex::encode(&w));
+        }
+    }
+    if t.chance(100) {
+        let mut ga = Gen::new(content, 3, 4);
+        let aux = gen::auxiliary_data(&mut ga);
+        let body = TransactionBody::new_tx_body(&TransactionInputs::new(), &TransactionOutputs::new(), &bn(0));
+        let tx = Transaction::new(&body, &TransactionWitnessSet::new(), Some(aux.clone()));
+        let tb = tx.to_bytes();
+        if let Ok(doc) = cbor::parse_document(&tb) {
+            if let Some(items) = doc.as_array() {
+                if let Some(a) = items.last() {
+                    if !a.is_null() {
+                        let w = blake(a.slice(&tb));
+                        let h = hash_auxiliary_data(&aux).to_bytes();
+                        ensure!(h == w, "helpers/hash_auxiliary_data-mismatch", "hash_auxiliary_data = {} but blake2b256 of the auxiliary data attached to the serialized transaction ({}) = {}", hex::encode(&h), hex::encode(a.slice(&tb)).chars().take(200).collect::<String>(), hex::encode(&w));
+                        ctx.label("helpers:auxiliary-data-checked");
+                    }
+                }
+            }
+        }
+    }
+    ctx.label(&format!("helpers:redeemers:{}", n_red));
+    ctx.label(&format!("helpers:datums:{}", n_dat));
+    ctx.label(&format!("helpers:languages:{}", langs.len()));
+    if n_red == 0 && datums.is_some() && !langs.is_empty() {
+        ctx.label("helpers:no-redeemer-form-with-cost-models");
+    }
+    if (n_red >= 1 && (datums.is_some() || langs.len() >= 2)) || (n_red == 0 && datums.is_some()) {
+        ctx.nontrivial(fp_mix(fp64(&pre), fp64(&got)));
+        ctx.sample(&format!("helpers:{}red{}dat{}lang", n_red, n_dat.min(2), langs.len()), describe);
+    }
+    Ok(())
 }
